@@ -93,6 +93,11 @@ Definition chk_radius_old (x y r : fbits) : bool := same [radius_F_old (F x) (F 
 (* rational enclosures of pi *)
 Definition pi_lo : Q := 3141592653589793 # 1000000000000000.
 Definition pi_hi : Q := 3141592653589794 # 1000000000000000.
+Definition is_negzero (b : fbits) : bool := match b with FZero true => true | _ => false end.
+Definition near_pi (neg : bool) (t : Q) : bool :=
+  if neg then Qltb (- pi_hi) t && Qltb t (- pi_lo) else Qltb pi_lo t && Qltb t pi_hi.
+(* the angle handed to the wrapped function: right quadrant; on the branch cut and on the axis exactly libm's
+   choice for signed zeros: atan2(+-0, x<0) = +-pi, atan2(+-0, +0) = +-0, atan2(+-0, -0) = +-pi *)
 Definition chk_quadrant (x y phi : fbits) : bool :=
   let t := Qof phi in
   finite_bits phi &&
@@ -101,22 +106,30 @@ Definition chk_quadrant (x y phi : fbits) : bool :=
   | 1 => Qle_bool 0 t && Qltb t (pi_hi / 2)        (* atan2 may underflow to 0 *)
   | 2 => Qltb (pi_lo / 2) t && Qltb t (pi_hi / 2)
   | 3 => Qltb (pi_lo / 2) t && Qltb t pi_hi
-  | 4 => Qltb pi_lo (Qabs t) && Qltb (Qabs t) pi_hi
+  | 4 => near_pi (is_negzero y) t
   | 5 => Qltb (- pi_hi) t && Qltb t (- (pi_lo / 2))
   | 6 => Qltb (- (pi_hi / 2)) t && Qltb t (- (pi_lo / 2))
   | 7 => Qltb (- (pi_hi / 2)) t && Qle_bool t 0
-  | _ => Qeq_bool t 0 || (Qltb pi_lo (Qabs t) && Qltb (Qabs t) pi_hi)   (* origin: libm returns 0 or +-pi *)
+  | _ => if is_negzero x then near_pi (is_negzero y) t else Qeq_bool t 0
   end%Z.
 
-(* returned vector = the wrapped function's vector rotated about z by the toroidal angle of (x, y);
-   r is the implementation's radius (a faithful rounding, checked separately); absolute tolerance
-   2^-40 of the largest component *)
+(* returned vector = the wrapped function's vector rotated about z by the toroidal angle of (x, y), for EVERY
+   finite (x, y):
+   - on the axis (x = y = 0 exactly): no rotation when x is +0 - compared EXACTLY - and a half turn when x is -0;
+   - elsewhere (cos, sin) = (xs / rho, ys / rho) where (xs, ys) = (x, y) * 2^k exactly and rho is a radius of
+     (xs, ys) that this comparator itself checks with accurate_radius (k = 0 and rho = the implementation's radius
+     in the normal range; k = 1000 for subnormal-near-zero points, whose own radius has no relative accuracy).
+   Tolerance 2^-40 of the largest component (libm cos/sin of the angle, rotate_z), 0 for the unrotated axis case. *)
 Definition vmax (v : vec) : Q := let '(a, b, c) := v in Qmaxabs (Qmaxabs a b) c.
-Definition chk_rot (x y r : Q) (v out : vec) : bool :=
-  let '(mx, my, mz) := rotz (x / r) (y / r) v in
+Definition chk_rot (k : Z) (x y xs ys rho : fbits) (v out : vec) : bool :=
+  let on_axis := Qeq_bool (Qof x) 0 && Qeq_bool (Qof y) 0 in
+  let cs := toroidal_cs (is_negzero x) (Qof xs) (Qof ys) (if on_axis then 0 else Qof rho) in
+  let '(mx, my, mz) := rotz (fst cs) (snd cs) v in
   let '(ox, oy, oz) := out in
-  let tol := pow2 (-40) * vmax v in
-  Qltb 0 r && Qle_bool (Qabs (mx - ox)) tol && Qle_bool (Qabs (my - oy)) tol && Qeq_bool mz oz.
+  let tol := if on_axis && negb (is_negzero x) then 0 else pow2 (-40) * vmax v in
+  Qeq_bool (Qof xs) (Qof x * pow2 k) && Qeq_bool (Qof ys) (Qof y * pow2 k)
+  && (on_axis || (accurate_radius xs ys rho && Qltb (pow2 (-900)) (Qof rho)))
+  && Qle_bool (Qabs (mx - ox)) tol && Qle_bool (Qabs (my - oy)) tol && Qeq_bool mz oz.
 
 (* ---- samplers ------------------------------------------------------------------------------------------------ *)
 Definition lists_eq (a b : list Q) : bool := forallb2 Qeq_bool a b.
